@@ -100,7 +100,18 @@ func (r *renderer) val(v ssa.Value, d int) string {
 		if phi, ok := x.X.(*ssa.Phi); ok && x.Op == token.ADD && phi.Comment == "rangeindex" {
 			return "i@" + rangeSubject(phi, r, d)
 		}
-		return "(" + r.val(x.X, d+1) + " " + x.Op.String() + " " + r.val(x.Y, d+1) + ")"
+		lx, ly := r.val(x.X, d+1), r.val(x.Y, d+1)
+		// integer + and * are commutative: one operand order (a constant stays on the right)
+		if x.Op == token.ADD || x.Op == token.MUL {
+			if b, ok := x.Type().Underlying().(*types.Basic); ok && b.Info()&types.IsInteger != 0 {
+				_, cx := x.X.(*ssa.Const)
+				_, cy := x.Y.(*ssa.Const)
+				if (cx && !cy) || (!cx && !cy && ly < lx) {
+					lx, ly = ly, lx
+				}
+			}
+		}
+		return "(" + lx + " " + x.Op.String() + " " + ly + ")"
 	case *ssa.Call:
 		return r.call(&x.Call, d+1)
 	case *ssa.Extract:
